@@ -1031,6 +1031,8 @@ def r_discinfo_pos(model, rep):
         and [T.show(x) for x in shapes.get("description", [])] == ["parser[1].strip().strip('\"\\'')".replace("parser", gcx.params[1])] \
         and shapes.get("arch") == [line(2)]
     dn = shapes.get("disc_numbers", [])
+    # (the two alternatives in either order: which branch of the if comes first is spelling)
+    dn = sorted(dn, key=lambda x: T.unwrap(x) != ("list", (("const", "ALL"),)))
     okd = len(dn) == 2 and T.unwrap(dn[0]) == ("list", (("const", "ALL"),))
     if okd:
         c = T.unwrap(dn[1])
